@@ -199,6 +199,6 @@ def handler : Handler := fun op args =>
         | none => failure
         | some t =>
           pure s!"ok {t.row} {t.col} {fmtBool t.pw} {t.top} {fmtSet (t.imgs.map fun p => [(if p.kittyProto then 1 else 0 : Int), p.row, p.col, p.cols, p.rows, p.z])}") args
-  | _ => none
+  | _ => TermDrive.handler op args   -- lex.run, term.runbytes, term.run, tok.str
 
 end TIV.C18
